@@ -66,7 +66,7 @@ def run(run):
                     n += 1
                     if not F.file_of(f).endswith("abstract_domain/mem_region.rs"):
                         outside.append(f["path"])
-        run.floor("mutation sites of the cell map", n, 13)
+        run.floor("mutation sites of the cell map", n, 6)
         run.check("R1", "all-writers-in-mem_region.rs", not outside, "the cell map is mutated outside mem_region.rs: %s" % outside[:3])
 
     run.guarded("R1", r1)
@@ -155,7 +155,7 @@ def run(run):
     def r2():
         nonlocal sites
         sites = insert_sites()
-        run.floor("insert sites into the cell map", len(sites), 7)
+        run.floor("insert sites into the cell map", len(sites), 3)
         helper_ok, hf = helper_nontop()
         run.check("R2", "merge_or_merge_with_top|returns-only-non-top", helper_ok, "merge_or_merge_with_top must return Some(x) only under !x.is_top()", F.loc(hf["body"]))
         counter = {}
@@ -242,15 +242,71 @@ def run(run):
                 if is_call(val, None) is False and val[0] == "field" and val[2] == "Some.0" and is_call(val[1], "merge_or_merge_with_top"):
                     # merge_inner: needs both overlap guards
                     g_prev = g_next = False
+                    opaque = []
+
+                    def literals_of(ct, pol):
+                        """(op, lhs, rhs) comparisons implied by the condition, negations pushed inwards, conjunctions split"""
+                        ct = S.value(ct)
+                        if ct[0] == "not":
+                            return literals_of(ct[1], not pol)
+                        if (ct[0] == "and" and pol) or (ct[0] == "or" and not pol):
+                            return literals_of(ct[1], pol) + literals_of(ct[2], pol)
+                        if ct[0] == "bin" and ct[1] in ("Ge", "Gt", "Le", "Lt"):
+                            op = ct[1] if pol else {"Ge": "Lt", "Lt": "Ge", "Gt": "Le", "Le": "Gt"}[ct[1]]
+                            return [(op, ct[2], ct[3])]
+                        if ct[0] == "lit" and isinstance(ct[1], bool):
+                            return []
+                        if (ct[0] == "or" and pol) or (ct[0] == "and" and not pol):
+                            # a disjunction guarantees neither side; it is only opaque if a side is outside the vocabulary
+                            parts = literals_of(ct[1], pol) + literals_of(ct[2], pol)
+                            return [x for x in parts if x[0] == "?"]
+                        return [("?", ct, pol)]
+
+                    def closure_terms(ct, depth=0):
+                        """terms of closures invoked in / passed along the condition (named conditions, map_or predicates)"""
+                        out = []
+                        for x in S.subterms(ct):
+                            if isinstance(x, tuple) and x and x[0] == "closure" and depth < 3:
+                                try:
+                                    cb = S.Sym(F).term(F.closure_by_path(x[1])["body"])
+                                except T.AnchorMissing:
+                                    continue
+                                out.append(cb)
+                                out.extend(closure_terms(cb, depth + 1))
+                        return out
+                    mre = lambda z: any(isinstance(x, tuple) and x and x[0] == "var" and x[1] == "merged_range_end" for x in S.subterms(z))
+                    cre = lambda z: any(is_call(x, "compute_range_end") or (isinstance(x, tuple) and x and x[0] == "var" and x[1] == "elem_range_end") for x in S.subterms(z))
                     for ct, pol, _ in conds:
-                        if ct[0] == "bin" and ct[1] == "Ge" and pol and any(isinstance(x, tuple) and x and x[0] == "var" and x[1] == "merged_range_end" for x in S.subterms(ct[3])):
-                            g_prev = True
-                        if ct[0] == "bin" and ct[1] == "Ge" and pol and any(is_call(x, "compute_range_end") for x in S.subterms(ct[3])):
-                            g_next = True
                         if ct[0] == "let" and (not pol) and any(is_call(x, "range") for x in S.subterms(ct[2])):
                             g_next = True  # there is no subsequent element
+                            continue
+                        if ct[0] in ("let", "arm"):
+                            continue
+                        for lit in literals_of(ct, pol):
+                            if lit[0] == "?":
+                                # a named condition / closure call: look at what it compares
+                                inner = closure_terms(lit[1])
+                                hit = False
+                                for cb in inner:
+                                    if cre(cb) and any(is_call(x, ("range", "next")) for y in [cb] + [lit[1]] + inner for x in S.subterms(y)):
+                                        hit = True
+                                if hit:
+                                    g_next = True
+                                else:
+                                    opaque.append(fmt(lit[1])[:60])
+                                continue
+                            op, l, r = lit
+                            if (op == "Ge" and mre(r)) or (op == "Le" and mre(l)):
+                                g_prev = True
+                            elif (op == "Ge" and cre(r)) or (op == "Le" and cre(l)):
+                                g_next = True
+                            elif (op in ("Lt", "Gt")) and (mre(l) or mre(r) or cre(l) or cre(r)):
+                                pass  # the overlapping case of a guard: contributes nothing
                     if g_prev and g_next:
                         why = "inside the not-overlapping-previous and not-overlapping-subsequent guards"
+                    elif opaque:
+                        run.undecided("R3", key, "merge_inner inserts a merged cell under conditions that are not recognised as the overlap guards: %s" % opaque[:2], site)
+                        why = "reported"
                     else:
                         run.violated("R3", key, "merge_inner inserts a merged cell without %s" % ("the guard against overlapping a previous cell" if not g_prev else "the guard against overlapping a subsequent cell"), site)
                         why = "reported"
@@ -273,8 +329,36 @@ def run(run):
                         ok = True
         run.check("R3", "merge_inner|range-end-advanced-for-every-element", ok, "merged_range_end must be advanced (max) for every element of the zipped map, also for skipped ones", F.loc(f["body"]))
         # both inputs are visited
-        ins = [n for n in T.walk(f["body"]) if T.is_call(n, "insert") and T.show(n["a"][0]).endswith("zipped")]
-        run.check("R3", "merge_inner|both-inputs-visited", len(ins) >= 3, "cells present only in one input must still take part in the overlap computation", F.loc(f["body"]))
+        # both inputs are visited: the zipped map is fed from an iteration over self's cells AND one over other's cells
+        feeders = set()
+        for n in T.walk_fn(F, f):
+            src = None
+            if n.get("k") == "Match" and T.for_loop(n):
+                pat, it, body = T.for_loop(n)
+                if any(T.is_call(x, ("insert", "entry", "push")) and "zipped" in T.show(x["a"][0]) for x in T.walk(body)):
+                    src = it
+            elif n.get("k") == "LetStmt" and "i" in n and any(b[1] == "zipped" for b in T.pat_bindings(n["p"])):
+                src = n["i"]
+            if src is not None:
+                for y in T.walk(src):
+                    if y.get("k") == "Field" and y.get("fn") == "values":
+                        b = y
+                        for _ in range(8):
+                            b = T.peel(b)
+                            if b.get("k") == "Field":
+                                b = b["e"]
+                            elif b.get("k") == "Call" and b.get("n") in ("deref", "deref_mut", "as_ref", "borrow") and b.get("a"):
+                                b = b["a"][0]
+                            else:
+                                break
+                        if b.get("k") in ("Var", "Upvar") and b.get("n") in ("self", "other"):
+                            feeders.add(b["n"])
+        if feeders == {"self", "other"}:
+            run.holds("R3", "merge_inner|both-inputs-visited", "", F.loc(f["body"]))
+        elif len(feeders) == 1:
+            run.violated("R3", "merge_inner|both-inputs-visited", "only the cells of `%s` are entered into the overlap computation: cells present only in the other input must still take part" % list(feeders)[0], F.loc(f["body"]))
+        else:
+            run.undecided("R3", "merge_inner|both-inputs-visited", "construction of the zipped map not recognised", F.loc(f["body"]))
 
     run.guarded("R3", r3)
 
